@@ -1035,6 +1035,9 @@ def combinator_model(facts, inner=None, depth=0, field_model=None, callees=None)
         if p.endswith(("Option::as_ref", "Option::as_mut", "Option::as_deref", "Option::cloned", "Option::copied", "Result::as_ref",
                        "Option::as_deref_mut", "Result::as_mut")) and a0 is not None and a0[0] == "v":
             return a0
+        if p in ("core::convert::From::from", "core::convert::Into::into") and a0 is not None and a0[0] == "i" and len(argv) == 1:
+            # integer / bool widening
+            return a0
         if p.endswith("Result::map_err"):
             if va == "Ok":
                 return a0
